@@ -19,7 +19,7 @@ RELEVANT = {
     "C08": STRUCT | {"verdict", "ncl", "seen", "value", "ident", "count", "stray", "drops", "frees", "panicked", "drain"},
     "C09": STRUCT | {"verdict", "out", "drops", "frees", "count", "ncl", "seen", "drain", "stray", "baddrop", "panicked"},
     "C10": STRUCT | {"touch", "count", "value", "ident", "thin", "addr", "heap", "panicked", "drops", "frees", "drain", "baddrop", "poison", "stray", "contents", "overrun"},
-    "C11": STRUCT | {"heap", "addr", "count", "value", "width", "bits", "verdict"},
+    "C11": STRUCT | {"heap", "addr", "count", "value", "width", "bits", "verdict", "union"},
     "C12": STRUCT | {"union", "count", "layout", "drops", "frees", "baddrop", "drain", "value", "ident", "poison", "width", "verdict"},
     "C15": STRUCT | {"baddrop", "drops", "frees", "drain", "poison", "count", "value", "ident", "panicked", "stray", "contents", "verdict", "overrun"},
     "C16": {"abort", "count"},
